@@ -246,14 +246,40 @@ type Chain struct {
 	Polls      []PollRecord
 	StateCalls []ton.AccountID
 	SeqnoAddrs []ton.AccountID
+
+	scriptBase int // number of GetSeqno calls made before the last Reconfigure
+}
+
+// Reconfigure changes the chain between two calls of a sequence (the account state of the next moment, the
+// scripted failures, the GetSeqno answers): f runs under the chain's lock. The script starts over: Script[0]
+// answers the next GetSeqno call. The records keep growing.
+func (c *Chain) Reconfigure(f func(c *Chain)) {
+	c.mu.Lock()
+	defer c.mu.Unlock()
+	f(c)
+	c.scriptBase = len(c.Polls)
+}
+
+// Counts returns how many calls of each kind have been recorded so far.
+func (c *Chain) Counts() (stateCalls, sent, polls int) {
+	c.mu.Lock()
+	defer c.mu.Unlock()
+	return len(c.StateCalls), len(c.Sent), len(c.Polls)
+}
+
+// StateCallsCopy returns a copy of the recorded GetAccountState arguments.
+func (c *Chain) StateCallsCopy() []ton.AccountID {
+	c.mu.Lock()
+	defer c.mu.Unlock()
+	return append([]ton.AccountID{}, c.StateCalls...)
 }
 
 func (c *Chain) GetSeqno(ctx context.Context, account ton.AccountID) (uint32, error) {
 	c.mu.Lock()
 	defer c.mu.Unlock()
 	p := c.Tail
-	if len(c.Polls) < len(c.Script) {
-		p = c.Script[len(c.Polls)]
+	if i := len(c.Polls) - c.scriptBase; i < len(c.Script) {
+		p = c.Script[i]
 	}
 	if c.AdvanceAfter > 0 && len(c.SentAt) > 0 && time.Since(c.SentAt[0]) >= c.AdvanceAfter {
 		p = Poll{Seqno: c.AdvanceTo}
